@@ -116,6 +116,16 @@ def cases(ctx):
         for order in ("AB", "BA", "AAB", "ABA"):
             yield ("blockreuse", ki, order)
     yield ("published",)
+    # the ECC block of a whole written file, in every header position next to the other block kinds, for an explicit recipient
+    # listed first / last among the caller's encryptors
+    from itertools import permutations
+    for n in (1, 2, 3):
+        for order in permutations(("cust", "ecc", "upd"), n):
+            if "ecc" in order:
+                for sel in (0, 2):
+                    for pos in ("first", "last"):
+                        for sink in ("to_binary", "write_file"):
+                            yield ("file", order, sel, pos, sink)
     for kind in ("zero", "y+1", "y-1", "x+1", "x>=p", "y>=p", "secp256k1", "negated-ok", "x+p-congruent", "x+p-congruent-2", "small-x-ok"):
         yield ("reject", kind, 0)
     for i in range(32):
@@ -143,9 +153,43 @@ def check_block(o, blk, sel, session_key, scalar, what):
     return o
 
 
+def run_file(ctx, case):
+    import io
+    from bec2format.bec2file import Bec2File, InitCustKeyAuthBlock, UpdateAuthBlock, SoftwareCustKeyEncryptor
+    from bec2format.bf3file import Bf3File, Bf3Component
+    from ..ref import authblock as AB
+    _, order, sel, pos, sink = case
+    o = Outcome("ok", True)
+    d = scalars(ctx)[1]
+    key = key_of(ctx, 0)
+    code = ctx.sym("c09-file-code", 8)
+    blocks = [{"cust": InitCustKeyAuthBlock, "ecc": lambda: InitEccAuthBlock(sel), "upd": lambda: UpdateAuthBlock(code, 0x11)}[b]() for b in order]
+    bec = Bec2File(Bf3File({"Configuration": "c09"}, [Bf3Component({0xC1: b"\x00"}, b"payload-of-the-file")]), blocks, key)
+    recipient = EccEncryptor(sel, FX.priv_key(d).public_key)
+    others = [SoftwareCustKeyEncryptor(ctx.sym("c09-file-ckey")), EccEncryptor((sel + 1) % 4, FX.priv_key(7).public_key)]
+    encs = [recipient] + others if pos == "first" else others + [recipient]
+    with DetRandom("c09-%r" % (case,)):
+        if sink == "to_binary":
+            binary = bec.to_binary(encs)
+        else:
+            st = io.StringIO()
+            bec.write_file(st, encs)
+            binary = bytes.fromhex("".join(st.getvalue().split("\n\n", 1)[1].split()))
+    try:
+        hb = AB.parse_header(binary)[0]
+    except Exception as e:
+        return o.viol("file|header", "written header does not parse: %r" % e)
+    ecc = [raw for tag, raw in hb if tag == 3]
+    if len(ecc) != 1:
+        return o.viol("file|ecc-count", "%d ECC blocks in the written header of a file with blocks %r" % (len(ecc), order))
+    return check_block(o, ecc[0], sel, key, d, "file with blocks %r, recipient listed %s, %s" % (order, pos, sink))
+
+
 def run_case(ctx, case):
     kind = case[0]
     o = Outcome("ok", True)
+    if kind == "file":
+        return run_file(ctx, case)
     if kind == "wrap":
         _, si, ki, sel, form = case
         d = scalars(ctx)[si]
